@@ -58,6 +58,7 @@ pub const NEW_REFERENCE_EXT: u8 = 114;
 // Process/Port/Reference tags (modern)
 pub const NEW_PID_EXT: u8 = 88;
 pub const NEWER_REFERENCE_EXT: u8 = 90;
+pub const NEW_PORT_EXT: u8 = 89;
 pub const V4_PORT_EXT: u8 = 120;
 
 // Local-only encoding (OTP 26+)
